@@ -433,8 +433,10 @@ COMMON = {
     "all_transitions": ["inner_call", "dropped-running", "result-ok", "result-err", "result-err-timeout", "result-panic-panic",
                         "refused-error", "refused-notready", "several-services", "handle-reused",
                         "preset-small", "preset-medium", "preset-large", "preset-small-customised"],
-    "model_modules": ["TR.Model.Bulkhead", "TR.Lemmas.Bulkhead", "TR.Lemmas.Bulkhead2", "TR.Lemmas.BulkheadMulti"],
-    "lean_files": ["TR.Model.Bulkhead", "TR.Lemmas.Bulkhead", "TR.Lemmas.Bulkhead2", "TR.Lemmas.BulkheadMulti"],
+    "model_modules": ["TR.Model.Bulkhead", "TR.Lemmas.Bulkhead", "TR.Lemmas.Bulkhead2", "TR.Lemmas.BulkheadMulti",
+                      "TR.Lemmas.BulkheadLog", "TR.Lemmas.BulkheadWait"],
+    "lean_files": ["TR.Model.Bulkhead", "TR.Lemmas.Bulkhead", "TR.Lemmas.Bulkhead2", "TR.Lemmas.BulkheadMulti",
+                      "TR.Lemmas.BulkheadLog", "TR.Lemmas.BulkheadWait"],
     "sizes": (500, 30000),
     "rule": "seeded random op sequences (arrive/poll/drop/adv/settle) over 1..10 callers, max 1..4, max_wait none/0/1..50ms, "
             "advances biased to deadline-1/deadline/deadline+1, followed by a quiescence + probe burst; 1..3 services built from the one "
@@ -460,16 +462,30 @@ SPECS = {
                            "most max calls are inside the inner service, in every prefix of the event log; proved by an inductive counting invariant. "
                            "{readiness_failure_changes_nothing}: a handle whose readiness fails costs and frees nothing. "
                            "{services_bound,services_trace_bound,services_permits_conserved}: every service built from one layer value has the full "
-                           "bound of its own, after any multi-service history; {preset_bounds}: the presets' documented numbers. The model is tied to the real "
+                           "bound of its own, after any multi-service history; {preset_bounds}: the presets' documented numbers. "
+                           "{log_wellformed,call_is_new,end_follows_own_call,at_most_one_call_and_end,count_is_inflight_set,inflight_is_running,"
+                           "running_iff_log,running_nodup}: every reachable log is a well-formed call/end trace (each inner_done/inner_drop follows its own "
+                           "inner_call, at most once; no caller or serial is used twice), so in every prefix calls - ended IS the number of open calls, and "
+                           "the open calls of the log are exactly the model's running list. {inner_needs_permit,inner_call_origin}: an inner_call is "
+                           "appended only by the poll that took a permit for that caller (a free one at its first poll, or the one a release handed it). "
+                           "The model is tied to the real "
                            "BulkheadLayer by line-for-line agreement of event logs on generated schedules.",
                 level_note=LEVEL_NOTE),
     "C07": dict(COMMON, module="TR.Props.C07", monitors=[("c07-capacity-and-rejection", mon_c07)],
                 level_text="Theorems TR.Props.C07.{quiescent_full,no_waiter_while_free,admit_at_once,reject_only_by_timeout,one_phase,rejected_never_runs,cancelled_while_waiting_never_runs}: after any history all "
                            "permits return once nothing is in flight; a first poll with spare capacity reaches the inner service in that step; "
                            "err:timeout is emitted only for max_wait=0 with no free permit or for a queued, unassigned caller at/after its deadline. "
-                           "Exactness of the rejection instant (timer wake-up at the deadline) is observed by the harness's waker monitor, not proved. "
+                           "{arrival_is_first_poll,first_poll_is_unique,deadline_is_arrival_plus_wait,rejected_not_before_deadline,rejection_instant,rejected_at_deadline,"
+                           "waits_until_deadline,reject_when_full_never_queues}: the deadline of a waiting caller is the instant of its first poll plus max_wait; "
+                           "err:timeout is answered only by a poll at an instant >= that, and a waiting caller without a permit polled at or after it IS "
+                           "rejected (before it: nothing changes). {never_rejected_without_max_wait,waits_forever_without_max_wait}: max_wait = none never rejects. "
+                           "{spare_capacity_admits,capacity_restored,probe_burst,probe_burst_simultaneous,probe_burst_overflow,admit_at_once_log}: after any history, once nothing is "
+                           "in flight, max never-polled callers polled once each in any order all reach the inner service, are inside together if none "
+                           "finishes at once, and the (max+1)-th queues (or is rejected when max_wait = 0). "
+                           "That the runtime wakes a waiter at its deadline (so that it is polled then) is observed by the harness's waker monitor, not proved. "
                            "{services_independent,service_admit_at_once,service_quiescent_full,service_rejected_never_runs}: services built from one layer "
                            "value share nothing — an idle service admits at once whatever its siblings hold; {refused_never_runs}: a request whose "
-                           "handle did not become ready never reaches the inner service; {presets_reject_when_full}.",
+                           "handle did not become ready never reaches the inner service; {presets_reject_when_full}; {service_probe_burst,service_wait_exact}: "
+                           "the burst and the exact deadline for every service of a multi-service history.",
                 level_note=LEVEL_NOTE),
 }
